@@ -16,6 +16,9 @@ def sh(cmd, cwd=None):
     return subprocess.run(cmd, cwd=cwd, stdout=subprocess.PIPE, stderr=subprocess.STDOUT, text=True, env=dict(os.environ, CARGO_NET_OFFLINE="true"))
 
 
+FEAT = (["--features", os.environ["SEED_FEATURES"]] if os.environ.get("SEED_FEATURES") else [])
+
+
 def main():
     wt, name, prop, needs = sys.argv[1:5]
     seeded = os.path.join(wt, "SEEDED")
@@ -45,14 +48,14 @@ def main():
             tests = [os.path.splitext(os.path.basename(f))[0] for f in rs]
             with_patch = []
             for t in tests:
-                r = sh(["cargo", "test", "--offline", "--test", t], cwd=scratch)
+                r = sh(["cargo", "test", "--offline"] + FEAT + ["--test", t], cwd=scratch)
                 with_patch.append(r.returncode)
                 ran.append("cargo test --offline --test %s (with patch) -> exit %d" % (t, r.returncode))
             ok &= all(c != 0 for c in with_patch)
             r = sh(["git", "apply", "-R", patch], cwd=scratch)
             assert r.returncode == 0, r.stdout
             for t in tests:
-                r = sh(["cargo", "test", "--offline", "--test", t], cwd=scratch)
+                r = sh(["cargo", "test", "--offline"] + FEAT + ["--test", t], cwd=scratch)
                 ran.append("cargo test --offline --test %s (without patch) -> exit %d" % (t, r.returncode))
                 if r.returncode != 0:
                     print(r.stdout[-1500:])
@@ -79,7 +82,7 @@ def main():
     head = sh(["git", "-C", REPO, "rev-parse", "HEAD"]).stdout.strip()
     meta = {"name": name, "property": prop, "needs_to_manifest": needs, "base_commit": head,
             "author": "independent sub-agent (saw only the property text and a scratch worktree)",
-            "confirmed_by": ran, "demonstration": [os.path.basename(f) for f in demos]}
+            "confirmed_by": ran, "demo_cargo_features": os.environ.get("SEED_FEATURES", ""), "demonstration": [os.path.basename(f) for f in demos]}
     with open(os.path.join(dst, "meta.json"), "w") as f:
         json.dump(meta, f, indent=1)
     print("CONFIRMED ->", dst)
